@@ -1,8 +1,10 @@
 package rules
 
 import (
+	"fmt"
 	"go/token"
 	"go/types"
+	"os"
 	"strings"
 
 	"golang.org/x/tools/go/ssa"
@@ -43,6 +45,8 @@ func C10(r *core.Run) {
 	rule019(r)
 	rule0211(r)
 	rule1014(r)
+	rule1015(r)
+	rule1016(r)
 }
 
 // fsCall: the call is a use of an afero filesystem (method of afero.Fs or an
@@ -104,7 +108,36 @@ func rule101(r *core.Run, ctx *oblig.Ctx) {
 			cx := sx.Has("call:path.Clean") || sx.Has("call:path/filepath.Clean")
 			cy := sy.Has("call:path.Clean") || sy.Has("call:path/filepath.Clean")
 			if (cx && sx.HasValue(p0) && sy.HasValue(p0) && !cy) || (cy && sy.HasValue(p0) && sx.HasValue(p0) && !cx) {
-				okClean = true
+				// the cleaned value is the ROOTED key ("/" + key, or Join("/", key)): cleaning a
+				// relative path keeps leading ".." segments, so a fixpoint test on the bare key
+				// accepts "../other-bucket/x"
+				rooted := false
+				for _, sl := range []*core.Slice{sx, sy} {
+					for c := range sl.Calls {
+						cn := r.P.CalleeName(c)
+						if cn != "path.Clean" && cn != "path/filepath.Clean" || len(c.Common().Args) != 1 {
+							continue
+						}
+						switch a := c.Common().Args[0].(type) {
+						case *ssa.BinOp:
+							if k, isK := core.ConstString(a.X); isK && a.Op == token.ADD && strings.HasPrefix(k, "/") {
+								rooted = true
+							}
+						case *ssa.Call:
+							if jn := r.P.CalleeName(a); (jn == "path.Join" || jn == "path/filepath.Join") && len(a.Call.Args) == 1 {
+								for _, e := range packedElems(a.Call.Args[0]) {
+									if k, isK := core.ConstString(e); isK && strings.HasPrefix(k, "/") {
+										rooted = true
+									}
+									break
+								}
+							}
+						}
+					}
+				}
+				if rooted {
+					okClean = true
+				}
 			}
 		})
 		// boolean library predicates
@@ -1272,5 +1305,118 @@ func rule1014(r *core.Run) {
 	// positive control: the rule still sees the calls it allows
 	if allowed < 1 {
 		r.Unresolved("R10.14: no RemoveAll call of the fs backends recognised (expected the root removal of the single-bucket backend)")
+	}
+}
+
+// rule1015 — bucket names and object keys are not handed over in each other's place.
+func rule1015(r *core.Run) {
+	r.Rule("R10.15", "where a repository function passes one of its own string parameters on to another repository function, a parameter that names the bucket (bucket, bucketName, srcBucket, dstBucket) is received by a bucket-named parameter and one that names the object (object, objectName, key, srcKey, dstKey) by an object-named one: both are plain strings, so the compiler accepts `f(objectName, bucketName)` for `f(bucketName, objectName)` — which addresses bucket <key> / key <bucket>")
+	class := func(n string) string {
+		switch strings.ToLower(n) {
+		case "bucket", "bucketname", "srcbucket", "dstbucket", "bucketnm":
+			return "bucket"
+		case "object", "objectname", "key", "srckey", "dstkey", "objectkey":
+			return "object"
+		}
+		return ""
+	}
+	paramOf := func(v ssa.Value) string {
+		switch x := v.(type) {
+		case *ssa.Parameter:
+			return x.Name()
+		case *ssa.UnOp:
+			if x.Op == token.MUL {
+				if fv, ok := x.X.(*ssa.FreeVar); ok {
+					return fv.Name()
+				}
+			}
+		}
+		return ""
+	}
+	n := 0
+	for _, fn := range r.P.RepoFuncs() {
+		f := fn
+		core.Instrs(f, func(in ssa.Instruction) {
+			c, ok := in.(ssa.CallInstruction)
+			if !ok {
+				return
+			}
+			var sig *types.Signature
+			off := 0
+			if callee := core.StaticCallee(c); callee != nil && r.P.IsRepo(callee) {
+				sig = callee.Signature
+				if sig.Recv() != nil {
+					off = 1
+				}
+			} else if c.Common().IsInvoke() && strings.HasPrefix(r.P.CalleeName(c), "invoke:gofakes3.") {
+				sig, _ = c.Common().Method.Type().(*types.Signature)
+			}
+			if sig == nil {
+				return
+			}
+			args := c.Common().Args
+			for i := 0; i < sig.Params().Len() && i+off < len(args); i++ {
+				to := class(sig.Params().At(i).Name())
+				from := class(paramOf(args[i+off]))
+				if to == "" || from == "" {
+					continue
+				}
+				n++
+				r.Check(to == from, "R10.15", key(fname(r, f), "role of argument", r.P.CalleeName(c), sprintf("#%d", i)), pos(r, in), from+" → "+to,
+					"the caller's "+from+" parameter ("+paramOf(args[i+off])+") is passed where "+r.P.CalleeName(c)+" expects the "+to+" ("+sig.Params().At(i).Name()+"): bucket and key change places")
+			}
+		})
+	}
+	r.Floor("R10.15", 60, "bucket/object parameters handed on")
+}
+
+// rule1016 — the metadata store does not live inside the bucket namespace.
+func rule1016(r *core.Run) {
+	r.Rule("R10.16", "in the multi-bucket constructor the filesystem handed to newMetaStore does not derive from the \"buckets\" sub-filesystem (the one every top-level directory of which is a bucket): metadata kept below it would be listed, and addressable, as a bucket of its own")
+	fn := mustFunc(r, "s3afero.MultiBucket")
+	if fn == nil {
+		return
+	}
+	n := 0
+	core.Instrs(fn, func(in ssa.Instruction) {
+		c, ok := in.(*ssa.Call)
+		if !ok || r.P.CalleeName(c) != "s3afero.newMetaStore" || len(c.Call.Args) < 1 {
+			return
+		}
+		n++
+		// the argument, and — where it is read back from a field of the backend under construction —
+		// every value this constructor stores into that field
+		vals := []ssa.Value{c.Call.Args[0]}
+		if ld, isLd := core.Forward(c.Call.Args[0]).(*ssa.UnOp); isLd && ld.Op == token.MUL {
+			if fa, isFA := ld.X.(*ssa.FieldAddr); isFA {
+				fldName := r.P.FieldName(fa)
+				vals = nil // judged by what is stored into the field, not by a field-insensitive view of the struct
+				core.Instrs(fn, func(y ssa.Instruction) {
+					if st, isSt := y.(*ssa.Store); isSt {
+						if fa2, ok2 := st.Addr.(*ssa.FieldAddr); ok2 && r.P.FieldName(fa2) == fldName {
+							vals = append(vals, st.Val)
+						}
+					}
+				})
+				if len(vals) == 0 {
+					vals = []ssa.Value{c.Call.Args[0]}
+				}
+			}
+		}
+		bad := false
+		for _, v := range vals {
+			s := r.P.SliceOf(v, core.SliceOpts{Depth: 0}) // within the constructor: what the call sites are given
+			if s.Has("const:buckets") || s.Has("field:s3afero.MultiBucketBackend.bucketFs") {
+				bad = true
+			}
+			if os.Getenv("GFS3_DEBUG_R1016") != "" {
+				fmt.Fprintf(os.Stderr, "R1016 %v: %v\n", v, s.LeafList(""))
+			}
+		}
+		r.Check(!bad, "R10.16", key(fname(r, fn), "metadata fs outside the bucket namespace"), pos(r, c), "metadata filesystem built from the base filesystem",
+			"the metadata store's filesystem derives from the bucket filesystem: the metadata directory shows up as a bucket, and a bucket of that name cannot be created")
+	})
+	if n == 0 {
+		r.Unresolved("R10.16: newMetaStore call not found in s3afero.MultiBucket")
 	}
 }
